@@ -21,7 +21,7 @@ RULE = (
     "ENUMERATED EXHAUSTIVELY and each site is one execution. Oracle: the call (or compute) raises; the chain text carries "
     "the unique token, the injected type, group and model name and - sequentially - every parameter key and value; no result "
     "is returned; no later model / step / run executes; on the dask path the failing run's entries cannot be computed. "
-    "Non-trivial: the fault is not at the very first call; distinct by (configuration, site)."
+    "Non-trivial: the fault is not at the very first call; distinct by (configuration, site). In addition every exception class x 6 kinds of running mode is enumerated on one fixed two-model pipeline on every run."
 )
 ASSUMPTIONS = [
     "calibration fault sites (initial population and evolution phase) are enumerated in part 'calibration' (see C10/C11 infrastructure)",
@@ -54,6 +54,16 @@ def configs(draw):
             # the running mode is configured with a working directory (the YAML 'working_directory:' entry)
             "workdir": draw(st.sampled_from([False, False, True])),
             "temps": draw(st.lists(st.sampled_from([50.0, 100.0, 150.0, 200.0]), min_size=1, max_size=3, unique=True)) if mode.startswith("obs") else [100.0]}
+
+
+def class_by_mode_cases():
+    """Every exception class in every kind of running mode, on one small fixed pipeline (the generated part pairs classes and modes at random)."""
+    out = []
+    for exc in EXC:
+        for mode in ("exposure", "obs_seq", "obs_dask_sync", "exposure_yamlrun", "obs_seq_yamlrun", "obs_seq_legacy"):
+            out.append({"models": [{"group": "charge_generation", "name": "m0", "enabled": True}, {"group": "charge_measurement", "name": "m1", "enabled": True}],
+                        "steps": 1, "mode": mode, "exc": exc, "same_instance": False, "workdir": False, "temps": [50.0, 150.0] if mode.startswith("obs") else [100.0]})
+    return out
 
 
 def _order(models):
@@ -262,4 +272,5 @@ PARTS = {"sites": body, "calibration_sites": body_cal}
 
 def plan(tier):
     return [Part(name="sites", kind="gen", strategy=configs, examples=25 if tier == "quick" else 150),
+            Part(name="sites", kind="enum", cases=class_by_mode_cases, label="every_class_in_every_mode"),
             Part(name="calibration_sites", kind="enum", cases=cal_site_cases, exhaustive=False)]
